@@ -460,8 +460,10 @@ def harness(gen, info: Dict[str, Any], enc: Dict[str, Any], mapping: Dict[str, s
     o.append('  g_ops["raise"] = [](const Args& a) { g_raise.at(a[1])(a.size() > 2 ? a[2] : "pump"); };')
     o.append('  g_ops["reply"] = [](const Args& a) { vmon::push_reply(a[1], std::stoll(a[2])); };')
     o.append('  g_ops["quiesce"] = [](const Args&) { quiesce(); };')
-    o.append('  g_ops["gate"] = [](const Args& a) { if (a[1] == "close") vmon::gate().close(); else '
-             'vmon::gate().open(); vmon::J j; j.s("state", a[1]); vmon::log("gate", j); };')
+    # the log record must bracket the closed period: logged after closing, before opening
+    o.append('  g_ops["gate"] = [](const Args& a) { vmon::J j; j.s("state", a[1]); '
+             'if (a[1] == "close") { vmon::gate().close(); vmon::log("gate", j); } else '
+             '{ vmon::log("gate", j); vmon::gate().open(); } };')
     o.append('  g_ops["final"] = [](const Args& a) {')
     o.append('    try { if (a.size() > 1 && a[1] == "noparent") g_shell->FinalConstruct(); else '
              'g_shell->FinalConstruct(&g_parent); vmon::log("final_ok"); }')
